@@ -9,12 +9,13 @@ import JRV.Driver.Headers
 import JRV.Driver.Wire
 import JRV.Driver.ConfigHeap
 import JRV.Driver.Transport
+import JRV.Driver.ServerLife
 
 namespace JRV.Driver
 
 def components : List (String × (List String → String)) := [
   ("echo", echo), ("norm", norm), ("truthy", truthyC), ("pyeq", pyeqC), ("cmpint", cmpIntC)
-] ++ clientComponents ++ payloadComponents ++ headersComponents ++ wireComponents ++ configHeapComponents ++ transportComponents
+] ++ clientComponents ++ payloadComponents ++ headersComponents ++ wireComponents ++ configHeapComponents ++ transportComponents ++ serverLifeComponents
 
 def handle (line : String) : String :=
   match JRV.Codec.tokens line with
